@@ -154,30 +154,9 @@ func (a A) F64s(i int) []float64 {
 // waStr renders arbitrary bytes as a Wa interpreted string literal: printable
 // ASCII except '"' and '\\' verbatim, everything else as \xNN (the scanner
 // accepts \x escapes producing raw bytes, verified through the worker).
-func waStr(s string) string {
-	if strings.IndexByte(s, 0) >= 0 {
-		return "string(" + waBytes(s) + ")"
-	}
-	return waQuoted(s)
-}
+func waStr(s string) string { return waQuoted(s) }
 
-// waBytes renders a []byte value. Literals containing NUL bytes are built with
-// append from byte constants instead of a string literal: the compiler's data
-// segment de-duplication (DataSeg.Append) may place such a literal on top of a
-// zero-filled placeholder that is overwritten later (a compiler defect reported
-// separately; it is not part of this property).
-func waBytes(s string) string {
-	if strings.IndexByte(s, 0) < 0 {
-		return "[]byte(" + waQuoted(s) + ")"
-	}
-	var b strings.Builder
-	b.WriteString("append([]byte(nil)")
-	for i := 0; i < len(s); i++ {
-		fmt.Fprintf(&b, ", 0x%02x", s[i])
-	}
-	b.WriteString(")")
-	return b.String()
-}
+func waBytes(s string) string { return "[]byte(" + waQuoted(s) + ")" }
 
 func waQuoted(s string) string {
 	var b strings.Builder
